@@ -23,7 +23,8 @@ func ShutdownScenario(t *rapid.T) sim.Scenario {
 	sc.Cfg.AllowPush = rapid.Bool().Draw(t, "push")
 	sc.Cfg.Chan = pick(t, "chan", []string{"direct", "direct", "pipe"})
 	sc.Cfg.Yield = pick(t, "yield", []int{0, 0, 2})
-	if rapid.IntRange(0, 9).Draw(t, "nohooks") == 0 {
+	sc.Cfg.LogYield = pick(t, "logyield", []int{0, 0, 0, 2, 6})
+	if rapid.IntRange(0, 9).Draw(t, "nohooks") < 2 {
 		sc.Cfg.NoHooks = true
 	}
 	if rapid.IntRange(0, 2).Draw(t, "pins") == 0 {
